@@ -4,7 +4,7 @@ from __future__ import annotations
 
 import ast
 
-from ..core.repo import (AnalysisError, Repo, call_name, calls_in, definitions, dotted, is_const,
+from ..core.repo import (AnalysisError, Repo, call_name, calls_in, definitions, dotted, func_params, is_const,
                          kwarg, names_in, unparse, walk_no_nested_defs)
 from ..domains.algnf import NotArithmetic, Rat, from_ast
 from ..domains.kat import COL, ROW, Comp, Ext, KAT, Pair, Seq
@@ -33,6 +33,10 @@ GOOD_INDEX_FORMS = [
     ("ifftshift(arange({n}) - {n} // 2)", "same, shift after centring"),
 ]
 BAD_INDEX_FORMS = [
+    ("fftfreq({n}, d=1.0)", "frequencies in cycles per sample, not integer indices"),
+    ("fftfreq({n}, 1.0)", "frequencies in cycles per sample, not integer indices"),
+    ("fftfreq({n})", "frequencies in cycles per sample, not integer indices"),
+    ("arange({n}) - {n} // 2", "centred, not FFT-ordered: zero is at index n//2 instead of 0"),
     ("fftshift(arange({n})) - {n} // 2", "fftshift moves index 0 to n//2: off by one for odd n"),
     ("fftshift(arange({n}) - {n} // 2)", "fftshift of a centred ramp: off by one for odd n"),
 ]
@@ -134,7 +138,16 @@ def run(check, repo: Repo) -> None:
         if len(ks) != 2:
             raise AnalysisError(f"{label}: expected two matrix-DFT kernels, found {len(ks)}")
         shifted = _forward_slice_names(fn, {shift_param})
-        shape_names = [d for d in definitions(fn, "M") if d.__class__.__name__ == "TupleItem"]
+        # extents by role: the names destructured from `<array>.shape` → axis 0 ("M", rows) / axis 1 ("N", columns)
+        ext_role = {}
+        for st_ in walk_no_nested_defs(fn):
+            if isinstance(st_, ast.Assign) and isinstance(st_.targets[0], ast.Tuple) and len(st_.targets[0].elts) == 2 \
+                    and isinstance(st_.value, ast.Attribute) and st_.value.attr == "shape":
+                for ax_, t_ in enumerate(st_.targets[0].elts):
+                    if isinstance(t_, ast.Name):
+                        ext_role[t_.id] = "MN"[ax_]
+        if sorted(ext_role.values()) != ["M", "N"]:
+            raise AnalysisError(f"{label}: `<rows>, <cols> = <array>.shape` not found")
         for kn in ks:
             n_k += 1
             ra, rb = _resolve(fn, kn["a"]), _resolve(fn, kn["b"])
@@ -179,15 +192,18 @@ def run(check, repo: Repo) -> None:
             check.decide(on_other, "C13-R1", f"{tag}: the patch offset derived from the shift sits on the output-sample operand", "", mod.line(kn["node"]),
                          fail_detail=f"the output-sample operand `{unparse(other_r)[:60]}` does not depend on `{shift_param}`: the patch is not centred on the coarse peak")
             # same extent in the index vector and in the exponent's normalisation
-            ext_in_factor = [nm for nm in ("M", "N") if nm in names_in(fac)]
-            check.decide(ext_in_factor == [fc[1]], "C13-R1", f"{tag}: exponent normalised by the extent of its own frequency vector ({fc[1]}·up)",
+            if fc[1] not in ext_role:
+                raise AnalysisError(f"{label}: the frequency vector's extent `{fc[1]}` is not one of the destructured shape names {sorted(ext_role)}")
+            own = ext_role[fc[1]]
+            ext_in_factor = sorted(ext_role[nm] for nm in names_in(fac) if nm in ext_role)
+            check.decide(ext_in_factor == [own], "C13-R1", f"{tag}: exponent normalised by the extent of its own frequency vector ({own}·up)",
                          f"factor `{unparse(fac)[:50]}`", mod.line(kn["node"]),
-                         fail_detail=f"frequency vector over {fc[1]} but the exponent is divided by {ext_in_factor}: rows and columns are mixed on non-square arrays")
+                         fail_detail=f"frequency vector over {own} (`{fc[1]}`) but the exponent is divided by {ext_in_factor}: rows and columns are mixed on non-square arrays")
             # position in the product: row kernel (·, M) multiplies from the left, col kernel (N, ·) from the right
-            want_pos = "b" if fc[1] == "M" else "a"
+            want_pos = "b" if own == "M" else "a"
             got_pos = "a" if fx is kn["a"] else "b"
             check.decide(want_pos == got_pos, "C13-R1", f"{tag}: kernel orientation matches its side of the matrix product", "", mod.line(kn["node"]),
-                         fail_detail=f"the {fc[1]} frequency vector is the {'first' if got_pos == 'a' else 'second'} outer operand: the kernel has the wrong orientation")
+                         fail_detail=f"the {own} frequency vector is the {'first' if got_pos == 'a' else 'second'} outer operand: the kernel has the wrong orientation")
         mm = [n for n in ast.walk(fn) if isinstance(n, ast.BinOp) and isinstance(n.op, ast.MatMult) and isinstance(n.left, ast.BinOp) and isinstance(n.left.op, ast.MatMult)]
         check.decide(len(mm) == 1, "C13-R1", f"{label}: patch = row kernel @ F @ column kernel", "", mod.line(fn),
                      fail_detail="the small-matrix DFT is not a single K_row @ F @ K_col product")
@@ -278,23 +294,63 @@ def run(check, repo: Repo) -> None:
     xy = [unparse(d) for d in definitions(ali, "xy_shift") if isinstance(d, ast.AST)]
     check.decide(rt == ["xy_shift"] and "torch.tensor([x0, y0])" in xy, "C13-R3", "align_images_fourier_torch returns (row shift, col shift)", str(xy), mod.line(ali),
                  fail_detail=f"returns {rt} with xy_shift = {xy}")
-    # centred wrap in the torch front end: per axis, with that axis' extent
-    for comp, ext in (("dx", "M"), ("dy", "N")):
-        d = [x for x in definitions(cct, comp) if isinstance(x, ast.AST)]
-        ok = False
-        if len(d) == 1:
-            idx = 0 if comp == "dx" else 1
+    # centred wrap in the torch front end: per axis, with that axis' extent (by role: the shift vector is the local
+    # bound to align_images_fourier_torch(…), extents are destructured from / indexed out of im_ref.shape)
+    svec = [n.targets[0].id for n in walk_no_nested_defs(cct) if isinstance(n, ast.Assign) and isinstance(n.targets[0], ast.Name)
+            and isinstance(n.value, ast.Call) and (call_name(n.value) or "").endswith("align_images_fourier_torch")]
+    if len(svec) != 1:
+        raise AnalysisError("cross_correlation_shift_torch: the local bound to align_images_fourier_torch(…) was not found")
+    ref = func_params(cct)[0]
+
+    def extent_axis(e):
+        """axis (0/1) whose extent the expression denotes, None if it is not an extent of the reference image"""
+        if isinstance(e, ast.Subscript) and unparse(e.value) == f"{ref}.shape" and isinstance(e.slice, (ast.Constant, ast.UnaryOp)):
             try:
-                env = {f"xy_shift[{idx}]": Rat.sym("s")}
-                # ((s + n/2) % n) − n/2 : check the shape with % as an opaque atom over (s + n/2, n)
-                e = d[0]
-                ok = isinstance(e, ast.BinOp) and isinstance(e.op, ast.Sub) and isinstance(e.left, ast.BinOp) and isinstance(e.left.op, ast.Mod) \
-                    and unparse(e.left.right) == ext and from_ast(e.left.left, env).equals(Rat.sym("s") + Rat.sym(ext) / Rat.const(2)) \
-                    and from_ast(e.right).equals(Rat.sym(ext) / Rat.const(2))
-            except NotArithmetic:
-                ok = False
-        check.decide(ok, "C13-R2", f"cross_correlation_shift_torch: {comp} = ((s + {ext}/2) mod {ext}) − {ext}/2 with its own extent", "", mod.line(cct),
-                     fail_detail=f"{comp} = `{unparse(d[0]) if d else '?'}` is not the centred wrap of component {0 if comp == 'dx' else 1} with extent {ext}")
+                return int(ast.literal_eval(e.slice)) % 2
+            except Exception:
+                return None
+        if isinstance(e, ast.Name):
+            dd = definitions(cct, e.id)
+            if len(dd) == 1 and dd[0].__class__.__name__ == "TupleItem" and unparse(dd[0].value) == f"{ref}.shape":
+                return dd[0].index
+            if len(dd) == 1 and isinstance(dd[0], ast.AST):
+                return extent_axis(dd[0])
+        return None
+
+    wrapped = {}
+    mods = [n for n in walk_no_nested_defs(cct) if isinstance(n, ast.BinOp) and isinstance(n.op, ast.Mod)]
+    check.floor("cross_correlation_shift_torch: modulo wraps", len(mods), 1)
+    for m in mods:
+        ax = extent_axis(m.right)
+        if ax is None:
+            raise AnalysisError(f"cross_correlation_shift_torch: modulus `{unparse(m.right)}` is not an extent of {ref}")
+        comps = set()
+        for x in ast.walk(m.left):
+            if isinstance(x, ast.Name) and x.id == svec[0]:
+                par = getattr(x, "_parent", None)
+                if isinstance(par, ast.Subscript) and par.value is x and isinstance(par.slice, ast.Constant) and par.slice.value in (0, 1):
+                    comps.add(par.slice.value)
+                else:
+                    comps |= {0, 1}
+        if not comps:
+            raise AnalysisError(f"cross_correlation_shift_torch: `{unparse(m)}` wraps no component of {svec[0]}")
+        full = getattr(m, "_parent", None)
+        E = Rat.sym("E")
+        shape_ok = False
+        try:
+            env = {unparse(x): Rat.sym("s") for x in ast.walk(m.left) if (isinstance(x, ast.Subscript) and unparse(x.value) == svec[0]) or (isinstance(x, ast.Name) and x.id == svec[0])}
+            env[unparse(m.right)] = E
+            shape_ok = from_ast(m.left, env).equals(Rat.sym("s") + E / Rat.const(2)) and isinstance(full, ast.BinOp) and isinstance(full.op, ast.Sub) \
+                and full.left is m and from_ast(full.right, env).equals(E / Rat.const(2))
+        except NotArithmetic:
+            shape_ok = False
+        for c in sorted(comps):
+            wrapped.setdefault(c, []).append(ax)
+            check.decide(shape_ok and c == ax, "C13-R2", f"cross_correlation_shift_torch: shift component {c} = ((s + n/2) mod n) − n/2 with the extent of its own axis", "", mod.line(m),
+                         fail_detail=f"`{unparse(full if isinstance(full, ast.BinOp) else m)}` wraps component {c} with the extent of axis {ax}"
+                                     + ("" if shape_ok else " and is not of the form ((s + n/2) mod n) − n/2"))
+    check.decide(sorted(wrapped) == [0, 1], "C13-R2", "cross_correlation_shift_torch: both shift components are wrapped into the centred cell", str(wrapped), mod.line(cct),
+                 fail_detail=f"components wrapped: {sorted(wrapped)}")
     wr = [n for n in ast.walk(ccs) if isinstance(n, ast.Assign) and dotted(n.targets[0]) == "shifts" and "%" in unparse(n.value)]
     ok = len(wr) == 1 and unparse(wr[0].value) == "(shifts + 0.5 * np.array(cc.shape)) % cc.shape - 0.5 * np.array(cc.shape)"
     check.decide(ok, "C13-R2", "cross_correlation_shift: the result is wrapped into the centred cell per axis (vector of both extents)", "", mod.line(ccs),
